@@ -1107,9 +1107,9 @@ impl Task {
                 });
 
                 if is_updated {
-                    // keep the stored task in step with the changed data
+                    // every ancestor that holds a copy of the key gets the new value, and
+                    // the stored task is kept in step with the changed data
                     let _ = t.runtime.cache().upsert(t);
-                    break;
                 }
             }
         }
